@@ -23,11 +23,12 @@ import (
 // drop/buffer outcome of each span on A.
 
 type c16Op struct {
-	Op  string `json:"op"` // arr | probe | stress | flushup | flushpeer
-	Tid int    `json:"tid,omitempty"`
-	Key int    `json:"key,omitempty"`
-	Ds  int    `json:"ds,omitempty"`
-	On  bool   `json:"on,omitempty"`
+	Op   string `json:"op"` // arr | probe | stress | rate | flushup | flushpeer
+	Rate uint64 `json:"rate,omitempty"`
+	Tid  int    `json:"tid,omitempty"`
+	Key  int    `json:"key,omitempty"`
+	Ds   int    `json:"ds,omitempty"`
+	On   bool   `json:"on,omitempty"`
 }
 type c16Input struct {
 	Tids []string `json:"tids"`
@@ -65,7 +66,10 @@ func c16Gen(r *rand.Rand, tier string, i int) any {
 	}
 	for k := 0; k < nops; k++ {
 		switch x := r.Intn(100); {
-		case x < 12:
+		case x < 6:
+			// a reload changes StressRelief.SamplingRate (most interesting while stress relief is active)
+			in.Ops = append(in.Ops, c16Op{Op: "rate", Rate: []uint64{1, 2, 3, 5, 10, 1000}[r.Intn(6)]})
+		case x < 16:
 			// a probe from the other node arrives at A's peer router (most interesting while A is stressed)
 			in.Ops = append(in.Ops, c16Op{Op: "probe", Tid: r.Intn(nt)})
 		case x < 68:
@@ -152,7 +156,9 @@ func c16Run(raw json.RawMessage) (Case, error) {
 	var ops, events, human []string
 	sent := map[int64]map[string]any{}
 	stressed := false
-	probeMade, lateAfterRelief, probeAtStressed := false, false, false
+	probeMade, lateAfterRelief, probeAtStressed, rateWhileStressed := false, false, false, false
+	curRate := in.Rate
+	var rateChanges []string
 	var probeHandled []string
 	decidedStress := map[int]bool{}
 	sid := int64(10)
@@ -170,8 +176,22 @@ func c16Run(raw json.RawMessage) (Case, error) {
 	allOps := append(append([]c16Op{}, in.Ops...), c16Op{Op: "flushup"}, c16Op{Op: "flushpeer"})
 	for _, o := range allOps {
 		switch o.Op {
+		case "rate":
+			if o.Rate == 0 {
+				o.Rate = 1
+			}
+			curRate = o.Rate
+			a.Cfg.Mux.Lock()
+			a.Cfg.StressRelief.SamplingRate = curRate
+			a.Cfg.Mux.Unlock()
+			a.Stress.UpdateFromConfig() // what InMemCollector.reloadConfigs does on a configuration reload
+			rateChanges = append(rateChanges, cq.Pair(cq.Nat(len(ops)), cq.N(curRate)))
+			if stressed {
+				rateWhileStressed = true
+			}
+			human = append(human, fmt.Sprintf("reload: SamplingRate := %d (stressed=%v)", curRate, stressed))
 		case "stress":
-			a.SetStress(o.On, in.Rate)
+			a.SetStress(o.On, curRate)
 			if a.Collector.Stressed() != o.On {
 				return Case{}, fmt.Errorf("C16: could not switch stress relief to %v", o.On)
 			}
@@ -318,8 +338,8 @@ func c16Run(raw json.RawMessage) (Case, error) {
 		bc = append(bc, cq.N(0))
 	}
 
-	coq := fmt.Sprintf("{| c_seed := %s; c_rate := %s; c_tinfo := %s; c_ops := %s; c_events := %s; c_posts := %s; c_peer_collected := %s; c_fields_bad := %s; c_probe_handled := %s |}",
-		cq.N(collect.VerifC16HashSeed), cq.N(in.Rate), cq.List(tinfo), cq.List(ops), cq.List(events), cq.List(posts), cq.List(bc), cq.List(fieldsBad), cq.List(probeHandled))
+	coq := fmt.Sprintf("{| c_seed := %s; c_rate := %s; c_rate_changes := %s; c_tinfo := %s; c_ops := %s; c_events := %s; c_posts := %s; c_peer_collected := %s; c_fields_bad := %s; c_probe_handled := %s |}",
+		cq.N(collect.VerifC16HashSeed), cq.N(in.Rate), cq.List(rateChanges), cq.List(tinfo), cq.List(ops), cq.List(events), cq.List(posts), cq.List(bc), cq.List(fieldsBad), cq.List(probeHandled))
 	tags := []string{fmt.Sprintf("rate:%d", in.Rate)}
 	if probeMade {
 		tags = append(tags, "probe-created")
@@ -330,11 +350,14 @@ func c16Run(raw json.RawMessage) (Case, error) {
 	if probeAtStressed {
 		tags = append(tags, "probe-arrives-at-stressed-node")
 	}
+	if rateWhileStressed {
+		tags = append(tags, "rate-reload-while-stressed")
+	}
 	if len(events) > 0 {
 		tags = append(tags, "some-drop-or-buffer")
 	}
 	key, _ := json.Marshal(in)
-	return Case{Coq: coq, Key: string(key), Nontriv: probeMade || probeAtStressed, Tags: tags,
+	return Case{Coq: coq, Key: string(key), Nontriv: probeMade || probeAtStressed || rateWhileStressed, Tags: tags,
 		Summary: map[string]any{"rate": in.Rate, "schedule": human, "requests_received": postSum}}, nil
 }
 
